@@ -216,7 +216,7 @@ func (f *Frame) props() []string {
 // safety emits a runtime-panic obligation (if enabled) and then assumes cond.
 func (f *Frame) safety(kind, detail, cond string, pos token.Pos) {
 	e := f.e
-	if e.con == nil || e.con.Safety {
+	if (e.con == nil || (e.con.Safety && !e.con.SafetyOff[kind])) && !f.topFrame().recovered {
 		name := detail
 		if !f.top {
 			name = "in:" + f.e.P.fnDisplay(f.fn) + ":" + detail
